@@ -49,6 +49,9 @@ type Class struct {
 	Flags string `json:"flags"`
 	// transport: "" = plain connection, "mtls" = the peer was authenticated by the TLS handshake (peerauth.AuthInfo in the context)
 	Peer string `json:"peer"`
+	// PUT only: the node is switched to maintenance in mid-stream, right before the given message is sent
+	// ("chunk1" | "chunk2"), after the server has processed the previous ones
+	MaintAt string `json:"maint_at"`
 }
 
 // client operations that must be refused in maintenance (C45); Replicate is deliberately outside.
@@ -326,6 +329,16 @@ var drivers = map[string]driver{
 		req := &protoobject.SearchV2Request{MetaHeader: w.metaFor("SearchV2", c)}
 		if c.Body != "missing" {
 			req.Body = &protoobject.SearchV2Request_Body{ContainerId: d.id.ProtoMessage(), Version: 1, Count: 10}
+			switch { // degenerate but valid queries: recognised as unreachable by the query preprocessor (answered without any lookup)
+			case hasFlag(c, "q_notpresent"):
+				req.Body.Filters = []*protoobject.SearchFilter{{MatchType: protoobject.MatchType_NOT_PRESENT, Key: "$Object:ownerID"}}
+			case hasFlag(c, "q_numgt"):
+				req.Body.Filters = []*protoobject.SearchFilter{{MatchType: protoobject.MatchType_NUM_GT, Key: "$Object:payloadLength",
+					Value: "115792089237316195423570985008687907853269984665640564039457584007913129639935"}}
+			case hasFlag(c, "q_attr"):
+				req.Body.Filters = []*protoobject.SearchFilter{{MatchType: protoobject.MatchType_STRING_EQUAL, Key: secretKey, Value: secretVal}}
+				req.Body.Attributes = []string{secretKey}
+			}
 			if c.Body == "badaddr" {
 				req.Body.ContainerId = &refs.ContainerID{Value: []byte{1, 2, 3}}
 			}
@@ -366,6 +379,29 @@ var drivers = map[string]driver{
 			init.MetaHeader.Ttl++
 		}
 		send := func(m *protoobject.PutRequest) bool { return st.Send(m) == nil }
+		// flip switches maintenance on once the server has consulted the flag for the first n messages (i.e. has taken
+		// them) and, for the heading, has finished its ACL checks
+		flip := func(n int) {
+			// best-effort synchronisation that does not depend on WHERE the server consults the flag: the heading is known
+			// to be processed when its eACL verdict is recorded; a later chunk is usually announced by one more look at the
+			// flag (soft wait: a server that does not look is exactly what the check is after)
+			count := func(evs []kit.M, name string) int {
+				k := 0
+				for _, e := range evs {
+					if e["ev"] == name {
+						k++
+					}
+				}
+				return k
+			}
+			w.rec.WaitFor(func(evs []kit.M) bool { return count(evs, "EACL") > 0 }, 3*time.Second)
+			if n > 1 {
+				w.rec.WaitFor(func(evs []kit.M) bool { return count(evs, "Maint") >= n }, 150*time.Millisecond)
+			}
+			time.Sleep(3 * time.Millisecond) // let the handler finish the message and block in Recv
+			w.maint.Store(true)
+			w.rec.Emit("Flip")
+		}
 		if send(init) {
 			pl := obj.Payload()
 			half := len(pl) / 2
@@ -377,6 +413,9 @@ var drivers = map[string]driver{
 				}
 				if c.Sig == "chunkbad" && i == 1 {
 					ch.MetaHeader.Ttl++
+				}
+				if c.MaintAt == fmt.Sprintf("chunk%d", i+1) {
+					flip(i + 1)
 				}
 				if !send(ch) {
 					break
